@@ -14,7 +14,7 @@ RULE = ("for each generated block a (all nine kinds, with and without gaps, both
 ASSUMPTIONS = ["truthiness of the comparison result is used (np.bool_ is fine); a raising comparison on a same-type pair is a violation",
                "cross-type comparisons are not exercised"]
 REQUIRED = {t: ["oracle:C14.self", "oracle:C14.roundtrip", "oracle:C14.mutated", "oracle:C14.files-equal",
-                "oracle:C14.files-differ", "oracle:C14.edited-in-place"] + [f"c14:{k}:mutated" for k in equality.gen.KINDS]
+                "oracle:C14.files-differ", "oracle:C14.edited-in-place", "oracle:C14.shared-buffer"] + [f"c14:{k}:mutated" for k in equality.gen.KINDS]
             for t in ("quick", "thorough")}
 
 
